@@ -71,6 +71,26 @@ let () = register "tagged_tuple_cmp" (fun a ->
   out_hex "ka" ka; out_hex "kb" kb;
   out_str "rev" "same")
 
+let () = register "tagged_keys" (fun a ->
+  let x = n_of_string a.(0) and x0 = n_of_string a.(1) and y = n_of_string a.(2) in
+  let kb = tagged_put64 y in
+  let k = tagged_put64 x in
+  out_hex "k64" k; out_int "c64" (sgn (lex k kb));
+  if BZ.lt (z_of_n x) (BZ.shift_left BZ.one 32) then begin
+    let k = tagged_put32 x in out_hex "k32" k; out_int "c32" (sgn (lex k kb)) end;
+  let k = match tagged_put64_fixed x (tagged_len x) with Some b -> b | None -> [] in
+  out_hex "kfix" k; out_int "cfix" (sgn (lex k kb));
+  let k = match tagged_put64_fixed_quick x (tagged_len x) with Some b -> b | None -> [] in
+  out_hex "kq" k; out_int "cq" (sgn (lex k kb));
+  let lim = BZ.shift_left BZ.one 63 in
+  if BZ.lt (z_of_n x) lim && BZ.lt (z_of_n x0) lim then begin
+    let p = tagged_put64 x0 @ [n_of_int 0; n_of_int 0; n_of_int 0; n_of_int 0; n_of_int 0; n_of_int 0; n_of_int 0; n_of_int 0; n_of_int 0] in
+    let (w, nb) = tagged_add p (cz_of_z (BZ.sub (z_of_n x) (z_of_n x0))) true in
+    out_n "wadd" w;
+    let l = int_of_n (tagged_getlen nb) in
+    let k = firstn l nb in
+    out_hex "kadd" k; out_int "cadd" (sgn (lex k kb)) end)
+
 let () = register "tagged_add" (fun a ->
   let b = bytes_of_hex a.(0) in
   let add = cz_of_string a.(1) in
